@@ -176,6 +176,29 @@ def classes():
                 g = np.real(g)
             return self.spoil(g)
 
+    class MixedOut(Base):
+        def _response(self, x):
+            D = sps.lil_matrix((x.size, x.size), dtype=x.dtype)
+            D.setdiag(x * x)
+            D[0, 1] = x[0] * x[1]
+            return D.tocsr(), x * x * x + 2 * x
+
+        def _sensitivity(self, dA, dv):
+            self.rec(dA, dv)
+            x = self.sig_in[0].state
+            g = np.zeros(x.shape, dtype=complex)
+            if dA is not None:
+                W = np.asarray(dA.todense()) if hasattr(dA, 'todense') else np.asarray(dA)
+                g = g + 2 * x * np.diag(W)
+                if self.wrong != 'missing':
+                    g[0] += W[0, 1] * x[1]
+                    g[1] += W[0, 1] * x[0]
+            if dv is not None:
+                g = g + dv * (3 * x * x + 2)
+            if not np.iscomplexobj(x):
+                g = np.real(g)
+            return self.spoil(g)
+
     class TwoIn(Base):
         def _response(self, a, b):
             return a * b + a
@@ -191,7 +214,7 @@ def classes():
                 gb = np.real(gb)
             return self.spoil(ga), gb
     _cls.update(pym=pym, Lin=Lin, Cube=Cube, NonHolo=NonHolo, Scalar=Scalar, Mat2D=Mat2D, SparseOut=SparseOut,
-                TwoIn=TwoIn)
+                TwoIn=TwoIn, MixedOut=MixedOut)
     return _cls
 
 
@@ -204,6 +227,9 @@ PROGS = {
     'mat2d': ('Mat2D', f_mat2d, [(2, 3)], ['sign', 'missing'], True),
     'sparse_out': ('SparseOut', f_sparse, [(3,)], ['scaled', 'missing'], True),
     'two_in': ('TwoIn', f_two, [(3,), (3,)], ['missing', 'entry'], True),
+    # two outputs of different kinds (a sparse matrix and a dense vector), listed in either order in tosig
+    'mixed_out:Kv': ('MixedOut', None, [(3,)], ['scaled', 'missing'], True),
+    'mixed_out:vK': ('MixedOut', None, [(3,)], ['scaled', 'missing'], True),
 }
 NETS = ['net2', 'net3:a', 'net3:b', 'net3:mid', 'net3:mid_to_mid2', 'net3:a_to_mid', 'net2b:ab', 'net2b:ba']
 
@@ -253,6 +279,16 @@ def build(desc):
     c = classes()
     pym = c['pym']
     prog, cplx, zeros, kind, wrong = desc['prog'], desc['cplx'], desc['zeros'], desc['input'], desc['wrong']
+    if prog.startswith('mixed_out'):
+        ins = [make_input(pym, (3,), kind, 0, cplx, zeros, 'in0')]
+        m = c['MixedOut']([ins[0][0]], [pym.Signal('K'), pym.Signal('v')], wrong=wrong, cplx=cplx)
+        fmix = lambda xs: (f_sparse(xs[0], cplx)[0], f_cube(xs[0], cplx)[0])  # noqa: E731
+        if prog.endswith(':Kv'):
+            return dict(blk=m, fromsig=None, tosig=[m.sig_out[0], m.sig_out[1]], ins=ins, outs=m.sig_out, fn=fmix,
+                        mods=[m], fd_ins=[ins[0][0]], fd_outs=[m.sig_out[0], m.sig_out[1]], out_pos=[0, 1])
+        return dict(blk=m, fromsig=None, tosig=[m.sig_out[1], m.sig_out[0]], ins=ins, outs=m.sig_out,
+                    fn=lambda xs: fmix(xs)[::-1], mods=[m], fd_ins=[ins[0][0]], fd_outs=[m.sig_out[1], m.sig_out[0]],
+                    out_pos=[1, 0])
     if prog in PROGS:
         cls, fn, shapes, _, _ = PROGS[prog]
         ins = [make_input(pym, shp, kind, 3 * i, cplx, zeros, f'in{i}') for i, shp in enumerate(shapes)]
@@ -407,24 +443,35 @@ def execute(case):
     nchk += 1
     if left:
         viol('sensitivity_left', {'signals': left})
-    # --- the seeds actually used: recorded by the last module producing each output
+    # --- the seeds actually used: recorded by the last module producing each output (one back-propagation per output,
+    # in the order of tosig; a module with several outputs is handed the seed of one output at a time)
     last = w['mods'][-1] if d['prog'] not in ('net3:mid_to_mid2', 'net3:a_to_mid') else \
         (w['mods'][1] if d['prog'] == 'net3:mid_to_mid2' else w['mods'][0])
-    seeds = [s[0] for s in last.seeds[:len(fd_outs)]]
-    if len(seeds) < len(fd_outs):
+    nout = len(fd_outs)
+    if len(last.seeds) < nout:
         viol('no_seed_recorded', {})
         return {'states': 1, 'transitions': nchk, 'violations': V, 'key': key(d)}
-    wseed = seeds[0]
+    out_pos = w.get('out_pos', list(range(nout)))      # position of each fd output among the module's outputs
+    seeds = []
+    for o in range(nout):
+        rec_ = last.seeds[o]
+        seeds.append(rec_[out_pos[o]] if len(rec_) > 1 else rec_[0])
     if opts['use_df']:
-        nchk += 1
-        if not np.array_equal(np.asarray(wseed if not hasattr(wseed, 'todense') else wseed.todense()),
-                              np.asarray(use_df[0])):
-            viol('use_df_not_used', {})
-    W = np.asarray(wseed.todense() if hasattr(wseed, 'todense') else wseed).astype(complex).ravel()
+        for o in range(nout):
+            nchk += 1
+            ws_ = seeds[o]
+            if ws_ is None or not np.array_equal(np.asarray(ws_ if not hasattr(ws_, 'todense') else ws_.todense()),
+                                                 np.asarray(use_df[o])):
+                viol('use_df_not_used', {'output': o})
+    if any(sd_ is None for sd_ in seeds):
+        viol('no_seed_recorded', {})
+        return {'states': 1, 'transitions': nchk, 'violations': V, 'key': key(d)}
+    Ws = [np.asarray(sd_.todense() if hasattr(sd_, 'todense') else sd_).astype(complex).ravel() for sd_ in seeds]
 
-    def F(xs):
+    def F(xs, o):
         ys = w['fn'](xs)
-        return np.asarray(ys[0]).astype(complex).ravel()
+        y = ys[o]
+        return np.asarray(y.todense() if hasattr(y, 'todense') else y).astype(complex).ravel()
     # --- expected call list
     exp = []
     for i, x in enumerate(x_in):
@@ -437,57 +484,68 @@ def execute(case):
             if np.iscomplexobj(x):
                 exp.append((i, idx, 'im', x0, sf))
     nchk += 1
-    if len(calls) != len(exp) * len(fd_outs):
-        viol('number_of_reported_pairs', {'got': len(calls), 'expected': len(exp) * len(fd_outs)})
+    if len(calls) != len(exp) * nout:
+        viol('number_of_reported_pairs', {'got': len(calls), 'expected': len(exp) * nout})
         return {'states': 1, 'transitions': nchk, 'violations': V, 'key': key(d)}
-    # --- analytic value: the module's own back-propagation for the recorded seed
-    for m in w['mods']:
-        m.seeds.clear()
-    blk.reset()
-    blk.response()
-    fd_outs[0].sensitivity = wseed.copy() if hasattr(wseed, 'copy') else wseed
-    blk.sensitivity()
-    own = [None if s.sensitivity is None else np.array(s.sensitivity, dtype=complex) for s in fd_ins]
-    blk.reset()
+    # --- analytic value: the module's own back-propagation for the recorded seed of each output
+    own = []
+    for o in range(nout):
+        for m in w['mods']:
+            m.seeds.clear()
+        blk.reset()
+        blk.response()
+        fd_outs[o].sensitivity = seeds[o].copy() if hasattr(seeds[o], 'copy') else seeds[o]
+        blk.sensitivity()
+        own.append([None if s_.sensitivity is None else np.array(s_.sensitivity, dtype=complex) for s_ in fd_ins])
+        blk.reset()
     mism = 0
     visible_wrong = 0
-    for (i, idx, part, x0, sf), (cx0, cdx, an, fd) in zip(exp, calls):
-        nchk += 3
-        if not (np.asarray(cx0).shape == () and complex(cx0) == complex(x0)):
-            viol('reported_x0_is_not_the_value_of_the_entry', {'entry': [i, list(idx), part], 'got': cx0, 'want': x0})
-            break
-        g = own[i]
-        gk = 0.0 if g is None else (g[idx] if g.ndim else g[()])
-        want_an = float(np.real(gk)) if part == 're' else float(np.imag(gk))
-        if abs(an - want_an) > 1e-9 * max(1.0, abs(want_an)):
-            viol('analytic_value_not_the_backpropagated_one', {'entry': [i, list(idx), part], 'got': an, 'want': want_an},
-                 part=part)
-        xs = [np.array(v, dtype=complex if d['cplx'] else float) for v in x_in]
-        e = np.zeros_like(xs[i])
-        if e.ndim:
-            e[idx] = 1.0 if part == 're' else 1j
-        else:
-            e = np.asarray(1.0 if part == 're' else 1j)
+    stop = False
+    for e_, (i, idx, part, x0, sf) in enumerate(exp):
+        for o in range(nout):
+            (cx0, cdx, an, fd) = calls[e_ * nout + o]
+            nchk += 3
+            if not (np.asarray(cx0).shape == () and complex(cx0) == complex(x0)):
+                viol('reported_x0_is_not_the_value_of_the_entry', {'entry': [i, list(idx), part], 'got': cx0, 'want': x0})
+                stop = True
+                break
+            g = own[o][i]
+            gk = 0.0 if g is None else (g[idx] if g.ndim else g[()])
+            want_an = float(np.real(gk)) if part == 're' else float(np.imag(gk))
+            sigo = {'output': o} if nout > 1 else {}
+            if abs(an - want_an) > 1e-9 * max(1.0, abs(want_an)):
+                viol('analytic_value_not_the_backpropagated_one',
+                     {'entry': [i, list(idx), part], 'output': o, 'got': an, 'want': want_an}, part=part, **sigo)
+            xs = [np.array(v, dtype=complex if d['cplx'] else float) for v in x_in]
+            e = np.zeros_like(xs[i])
+            if e.ndim:
+                e[idx] = 1.0 if part == 're' else 1j
+            else:
+                e = np.asarray(1.0 if part == 're' else 1j)
 
-        def Fi(xi, i=i, xs=xs):
-            return F([xi if j == i else xs[j] for j in range(len(xs))])
-        dF = richardson(Fi, xs[i], e)
-        exact = float(np.real(np.sum(W * dF)))
-        if part == 'im':
-            exact = -exact          # reported value approximates Im(g) = -dF/dy
-        h = opts['dx'] * sf
-        # Lagrange remainder: sup of |f''| over the step (the harness functions have monotone f'' on that interval)
-        d2 = np.maximum(np.abs(second(Fi, xs[i], e)), np.abs(second(Fi, xs[i] + h * e, e)))
-        f0 = Fi(xs[i])
-        scale_f = float(np.sum(np.abs(W) * (np.abs(f0) + np.abs(Fi(xs[i] + h * e)))))
-        bound = 1.5 * 0.5 * h * float(np.sum(np.abs(W) * d2)) + 200 * EPS * scale_f / h + 1e-9 * abs(exact) + 1e-12
-        if abs(fd - exact) > bound:
-            viol('numerical_value_not_the_directional_derivative',
-                 {'entry': [i, list(idx), part], 'got': fd, 'exact': exact, 'bound': bound, 'h': h}, part=part)
-        if abs(an - fd) > bound + 1e-9 * abs(an):
-            mism += 1
-        if abs(want_an - exact) > 10 * bound + 1e-6 * abs(exact):
-            visible_wrong += 1
+            def Fi(xi, i=i, xs=xs, o=o):
+                return F([xi if j == i else xs[j] for j in range(len(xs))], o)
+            dF = richardson(Fi, xs[i], e)
+            W = Ws[o]
+            exact = float(np.real(np.sum(W * dF)))
+            if part == 'im':
+                exact = -exact          # reported value approximates Im(g) = -dF/dy
+            h = opts['dx'] * sf
+            # Lagrange remainder: sup of |f''| over the step (the harness functions have monotone f'' on that interval)
+            d2 = np.maximum(np.abs(second(Fi, xs[i], e)), np.abs(second(Fi, xs[i] + h * e, e)))
+            f0 = Fi(xs[i])
+            scale_f = float(np.sum(np.abs(W) * (np.abs(f0) + np.abs(Fi(xs[i] + h * e)))))
+            bound = 1.5 * 0.5 * h * float(np.sum(np.abs(W) * d2)) + 200 * EPS * scale_f / h + 1e-9 * abs(exact) + 1e-12
+            if abs(fd - exact) > bound:
+                viol('numerical_value_not_the_directional_derivative',
+                     {'entry': [i, list(idx), part], 'output': o, 'got': fd, 'exact': exact, 'bound': bound, 'h': h},
+                     part=part, **sigo)
+            if abs(an - fd) > bound + 1e-9 * abs(an):
+                mism += 1
+            if abs(want_an - exact) > 10 * bound + 1e-6 * abs(exact):
+                visible_wrong += 1
+        if stop:
+            break
     nchk += 1
     if d['wrong'] is None and mism and not V:
         viol('correct_module_reported_with_non_matching_pair', {'pairs': mism})
